@@ -73,6 +73,15 @@ func (n *Note) AfterDelete(tx *gorm.DB) error {
 	return tx.Exec("INSERT INTO audits (msg) VALUES (?)", "after delete").Error
 }
 
+// Stamp: tracked times kept as integers (seconds by name, milliseconds and nanoseconds by tag).
+type Stamp struct {
+	ID           uint `gorm:"primaryKey"`
+	Name         string
+	CreatedAt    int64
+	UpdatedMilli int64 `gorm:"autoUpdateTime:milli"`
+	CreatedNano  int64 `gorm:"autoCreateTime:nano"`
+}
+
 var oldTime = time.Date(2020, 1, 2, 3, 4, 5, 0, time.UTC)
 
 var fixedNow = time.Date(2024, 5, 6, 7, 8, 9, 0, time.UTC)
@@ -135,6 +144,39 @@ func xFin(db *gorm.DB, x XOp) *gorm.DB {
 		return db.Create(&Doc{Title: x.Title})
 	case "update":
 		return db.Model(&Doc{}).Where("id = ?", x.ID).Update("title", x.Title)
+	case "raw_find", "raw_first", "raw_take", "raw_last", "raw_pluck", "raw_count": // raw SQL finished by a query-processor finisher
+		tx := db.Raw("SELECT * FROM docs WHERE title <> ? AND id > ?", x.Title, 0)
+		switch x.K {
+		case "raw_find":
+			var d []Doc
+			return tx.Find(&d)
+		case "raw_first":
+			var d Doc
+			return tx.First(&d)
+		case "raw_take":
+			var d Doc
+			return tx.Take(&d)
+		case "raw_last":
+			var d Doc
+			return tx.Last(&d)
+		case "raw_pluck":
+			var t []string
+			return db.Raw("SELECT title FROM docs WHERE title <> ?", x.Title).Pluck("title", &t)
+		}
+		var n int64
+		return db.Raw("SELECT count(*) FROM docs WHERE title <> ?", x.Title).Count(&n)
+	case "stamp_create":
+		return db.Create(&Stamp{Name: x.Title})
+	case "stamp_create_slice":
+		return db.Create(&[]Stamp{{Name: x.Title}, {Name: x.Title + "b", CreatedAt: 77}})
+	case "stamp_create_map":
+		return db.Model(&Stamp{}).Create(map[string]interface{}{"name": x.Title})
+	case "stamp_update":
+		return db.Model(&Stamp{ID: uint(x.ID)}).Update("name", x.Title)
+	case "stamp_updates_struct":
+		return db.Model(&Stamp{ID: uint(x.ID)}).Updates(Stamp{Name: x.Title})
+	case "stamp_save":
+		return db.Save(&Stamp{ID: uint(x.ID), Name: x.Title, CreatedAt: 5, CreatedNano: 6})
 	case "hook_update": // BeforeUpdate runs a statement first
 		return db.Model(&Note{ID: uint(x.ID)}).Update("body", x.Title)
 	case "hook_delete": // BeforeDelete before, AfterDelete after the main statement
@@ -288,7 +330,7 @@ func openEnv(noReturning bool) env {
 		return db
 	}
 	e := env{real: mk(false), dryCfg: mk(true), rec: rec, sqlDB: sqlDB}
-	lib.Must(e.real.AutoMigrate(&cgen.Item{}, &Doc{}, &Owner{}, &Pet{}, &Tag{}, &Note{}, &Audit{}))
+	lib.Must(e.real.AutoMigrate(&cgen.Item{}, &Doc{}, &Owner{}, &Pet{}, &Tag{}, &Note{}, &Audit{}, &Stamp{}))
 	e.reseed()
 	return e
 }
@@ -296,7 +338,8 @@ func openEnv(noReturning bool) env {
 // reseed restores the data both runs start from (through database/sql directly).
 func (e env) reseed() {
 	for _, q := range []string{
-		"DELETE FROM items", "DELETE FROM docs", "DELETE FROM owners", "DELETE FROM pets", "DELETE FROM notes", "DELETE FROM audits", "DELETE FROM tags", "DELETE FROM owner_tags",
+		"DELETE FROM items", "DELETE FROM docs", "DELETE FROM owners", "DELETE FROM pets", "DELETE FROM notes", "DELETE FROM audits", "DELETE FROM tags", "DELETE FROM owner_tags", "DELETE FROM stamps",
+		"INSERT INTO stamps (id, name, created_at, updated_milli, created_nano) VALUES (1,'s1',1,1,1),(2,'s2',2,2,2)",
 		"INSERT INTO notes (id, body) VALUES (1,'n1'),(2,'n2')",
 		"INSERT INTO tags (id, name) VALUES (1,'t1'),(2,'t2')",
 		"INSERT INTO owner_tags (owner_id, tag_id) VALUES (1,1),(1,2),(2,1)",
@@ -406,6 +449,14 @@ func classify(in Input) (kind, fin string, ret bool) {
 			return "OpCreate", "FBatch", true
 		case "hook_create":
 			return "OpCreate", "(FNested 0 1)", true
+		case "raw_find", "raw_first", "raw_take", "raw_last", "raw_pluck", "raw_count":
+			return "OpQuery", fin, false
+		case "stamp_create", "stamp_create_slice", "stamp_create_map":
+			return "OpCreate", fin, true
+		case "stamp_update", "stamp_updates_struct":
+			return "OpUpdate", fin, false
+		case "stamp_save":
+			return "OpUpdate", "FSave", false
 		case "hook_update":
 			return "OpUpdate", "(FNested 1 0)", false
 		case "hook_delete":
@@ -618,7 +669,9 @@ func main() {
 		"batch_create", "batchsize_create", "update_nocond", "updates_nocond", "update_column_nocond", "delete_nocond", "unscoped_delete_nocond",
 		"hook_create", "assoc_delete", "assoc_delete_all", "preload_keyed", "begin_create", "begin_update", "row", "raw_row_returning", "scan",
 		"save_slice_preset", "save_struct_preset",
-		"hook_update", "hook_delete", "assoc_delete_m2m", "parse_error", "first_nilptr", "exec_bad"}
+		"hook_update", "hook_delete", "assoc_delete_m2m", "parse_error", "first_nilptr", "exec_bad",
+		"raw_find", "raw_first", "raw_take", "raw_last", "raw_pluck", "raw_count",
+		"stamp_create", "stamp_create_slice", "stamp_create_map", "stamp_update", "stamp_updates_struct", "stamp_save"}
 	n := 0
 	for i := 0; i < budget; i++ {
 		in := Input{Mode: lib.Pick(r, []string{"config", "session", "tosql"}), Skip: r.Chance(1, 3)}
@@ -668,6 +721,6 @@ func main() {
 		}
 		add(kind, in)
 	}
-	out.Extra["rule"] = "cases = operation x DryRun mode {Config.DryRun, Session{DryRun}, ToSQL} x SkipDefaultTransaction {false,true}; operation = a C01 chain+finisher on Item (Find/First/Take/Last/Count/Pluck, Update/Updates, Delete, Create from struct/slice/map/[]map incl. OnConflict, Exec, Raw+Scan) or an operation on Doc (soft delete, tracked update time, pinned NowFunc): Create, Update, soft Delete, Unscoped Delete, Find, First, Rows, Save of an existing / missing / new record, Update / soft Delete / Unscoped Delete with clause.Returning{}, Update / Updates / UpdateColumn / Delete without any condition (refused with ErrMissingWhereClause; also a sixth of the C01 update/delete chains lose their conditions), Find / First / Count / Update finishing a handle that already carries Model+Where+Order when DryRun or ToSQL is switched on (also a third of the C01 chains), statements derived through Session{NewDB} (an AfterCreate hook running Exec on its tx, Delete with Select(Pets) / Select(clause.Associations), Preload on a destination that already has its key), an operation inside Begin()...Rollback() on a dry handle, Row() on a chain and on Raw UPDATE ... RETURNING, Scan on a chain, Save of a slice / of a struct whose tracked update time is already set (pinned clock; every bound value compared), CreateInBatches and Create with CreateBatchSize over more rows than the batch size; both runs start from the same re-seeded tables on identical SQLite handles behind the recording driver; statements SQLite rejects are kept (the real run then rolls back); distinct = distinct (mode, skip, operation skeleton); non-trivial = the real run sends at least one statement and the dry run exposes at least one bound value"
+	out.Extra["rule"] = "cases = operation x DryRun mode {Config.DryRun, Session{DryRun}, ToSQL} x SkipDefaultTransaction {false,true}; operation = a C01 chain+finisher on Item (Find/First/Take/Last/Count/Pluck, Update/Updates, Delete, Create from struct/slice/map/[]map incl. OnConflict, Exec, Raw+Scan) or an operation on Doc (soft delete, tracked update time, pinned NowFunc): Create, Update, soft Delete, Unscoped Delete, Find, First, Rows, Save of an existing / missing / new record, Update / soft Delete / Unscoped Delete with clause.Returning{}, Update / Updates / UpdateColumn / Delete without any condition (refused with ErrMissingWhereClause; also a sixth of the C01 update/delete chains lose their conditions), Find / First / Count / Update finishing a handle that already carries Model+Where+Order when DryRun or ToSQL is switched on (also a third of the C01 chains), statements derived through Session{NewDB} (an AfterCreate hook running Exec on its tx, Delete with Select(Pets) / Select(clause.Associations), Preload on a destination that already has its key), an operation inside Begin()...Rollback() on a dry handle, Row() on a chain and on Raw UPDATE ... RETURNING, raw SQL finished by Find / First / Take / Last / Pluck / Count, Create (struct, slice, map) / Update / Updates / Save on a model whose tracked times are integers (seconds, autoUpdateTime:milli, autoCreateTime:nano), Scan on a chain, Save of a slice / of a struct whose tracked update time is already set (pinned clock; every bound value compared), CreateInBatches and Create with CreateBatchSize over more rows than the batch size; both runs start from the same re-seeded tables on identical SQLite handles behind the recording driver; statements SQLite rejects are kept (the real run then rolls back); distinct = distinct (mode, skip, operation skeleton); non-trivial = the real run sends at least one statement and the dry run exposes at least one bound value"
 	lib.Must(out.Flush())
 }
